@@ -27,6 +27,7 @@ input Filter { name: String kindOf: Kind nested: Filter }
 interface Node { id: ID! }
 type User implements Node { id: ID! userName: String bestFriend(withKind: Kind): User posts(first: Int = 3, tags: [String!]): [Post!]! }
 type Post implements Node { id: ID! title(upper: Boolean = false): String author: User }
+type Team implements Node { id: ID! posts(first: Int!, pinned: Boolean): [Post!]! lead(kind: Kind, rank: Int!): User }
 union SearchResult = User | Post
 type Query {
   me: User
@@ -35,8 +36,10 @@ type Query {
   search(text: String!, kinds: [Kind]): [SearchResult!]!
   node(id: ID!): Node
   count: Int!
+  team: Team
+  find(kind: Kind, first: Int!, after: String): [User!]!
 }
-type Mutation { renameUser(userId: ID!, newName: String!): User }
+type Mutation { renameUser(userId: ID!, newName: String!): User updatePost(title: String, published: Boolean, id: ID!): Post }
 '''
 _schema = None
 
@@ -69,6 +72,13 @@ POST_ITEMS = [
     ("PostFields.title(upper=True)", "title(upper: true)", {"nested_arg"}),
     ("PostFields.author().fields(UserFields.id)", "author { id }", set()),
 ]
+TEAM_ITEMS = [
+    ("TeamFields.id", "id", set()),
+    ("TeamFields.posts(first=3).fields(PostFields.id)", "posts(first: 3) { id }", {"nested_arg", "same_field_name_on_two_types"}),
+    ("TeamFields.posts(first=1, pinned=True).alias('pinned').fields(PostFields.id)", "pinned: posts(first: 1, pinned: true) { id }", {"nested_arg", "alias", "same_field_name_on_two_types"}),
+    ("TeamFields.lead(rank=2).fields(UserFields.id)", "lead(rank: 2) { id }", {"nested_arg", "optional_before_required_arg"}),
+    ("TeamFields.lead(kind=Kind.B, rank=1).alias('l2').fields(UserFields.id)", "l2: lead(kind: B, rank: 1) { id }", {"nested_arg", "alias", "optional_before_required_arg", "enum_arg"}),
+]
 ROOTS = [
     # (python root, graphql root field, kind of sub-selection, tags)
     ("Query.me()", "me", "user", set()),
@@ -79,6 +89,9 @@ ROOTS = [
     ("Query.search(text='t')", 'search(text: "t")', "search", {"union"}),
     ("Query.search(text='t', kinds=[Kind.A, None])", 'search(text: "t", kinds: [A, null])', "search", {"union", "list_arg", "enum_list_arg"}),
     ("Query.node(id='n1')", 'node(id: "n1")', "node", {"interface"}),
+    ("Query.team()", "team", "team", set()),
+    ("Query.find(first=10)", "find(first: 10)", "user_small", {"optional_before_required_arg"}),
+    ("Query.find(kind=Kind.A, first=5, after='c')", 'find(kind: A, first: 5, after: "c")', "user_small", {"optional_before_required_arg", "enum_arg"}),
 ]
 SEARCH_SELS = [
     (".on('User', UserFields.id)", "... on User { id }", set()),
@@ -103,6 +116,13 @@ def expressions(tier):
                 t = set(tags).union(*[c[2] for c in combo])
                 out.append((f"{py}.fields({sel_py})", f"{gql} {{ {sel_gql} }}", t))
             out.append((f"{py}.alias('root').fields(UserFields.id)", f"root: {gql} {{ id }}", set(tags) | {"alias"}))
+        elif kind == "team":
+            combos = [(i,) for i in TEAM_ITEMS] + list(itertools.combinations(TEAM_ITEMS, 2))
+            for combo in combos:
+                out.append((f"{py}.fields({', '.join(c[0] for c in combo)})", f"{gql} {{ {' '.join(c[1] for c in combo)} }}", set(tags).union(*[c[2] for c in combo])))
+        elif kind == "user_small":
+            for it in USER_ITEMS[:2] + USER_ITEMS[5:6]:
+                out.append((f"{py}.fields({it[0]})", f"{gql} {{ {it[1]} }}", set(tags) | it[2]))
         elif kind == "search":
             for spy, sgql, st in SEARCH_SELS:
                 out.append((py + spy, f"{gql} {{ {sgql} }}", set(tags) | st))
@@ -126,6 +146,9 @@ def operations(tier):
     ops = [o for o in ops if "same_field_twice" in o[2] or not validate(schema, parse(o[0] + " Ref { " + " ".join(e[1] for e in o[1]) + " }"), specified_rules)]
     m = ("Mutation.rename_user(user_id='1', new_name='n').fields(UserFields.id, UserFields.user_name)", 'renameUser(userId: "1", newName: "n") { id userName }', {"mutation"})
     ops.append(("mutation", [m], m[2]))
+    for m2 in (("Mutation.update_post(id='p1', title='t').fields(PostFields.id)", 'updatePost(id: "p1", title: "t") { id }', {"mutation", "optional_before_required_arg"}),
+               ("Mutation.update_post(id='p1', published=False, title=None).fields(PostFields.id)", 'updatePost(id: "p1", published: false) { id }', {"mutation", "optional_before_required_arg", "none_arg"})):
+        ops.append(("mutation", [m2], m2[2]))
     return ops
 
 
